@@ -59,6 +59,7 @@ def run(chk):
             chk.ob('maps-to', '%s(0x%02X)' % (ent, v), ok,
                    chk.key(ent, 'maps-to', fn, 'byte=%02X:expected=%s:actual=%s' % (v, want, got)),
                    '0x%02X converts to %s, expected %s' % (v, got, want), site=sp,
+                   show='%s(0x%02X) = %s' % (ent, v, got) if v in (0x00, 0x0F, 0x14, 0x15, 0x7E, 0xFF) else None,
                    detail={'leaves': [dump_leaf(l, prog) for l in lfs]}, nontrivial=(v in byval_code or v in (0x15, 0xFE, 0xFF, 0x80)))
     chk.floor('conversion tables analysed', n_tables, 3)
     chk.floor('byte values classified', chk.evaluations, 256 * 2 + 6)
